@@ -37,7 +37,10 @@ CHECKS = {
                 'Conn.tla (close only after everything queued was accepted by send, promptness within 2 loop iterations). Kernel-socket '
                 'part: REAL proxy processes in the three execution modes relay multi-MiB close-delimited / Content-Length responses, '
                 'a tunnel stream and a static file to clients reading fast, slowly or late while the origin closes right after its '
-                'last byte; TLC (TraceFlush) requires everything owed, unmodified, then a prompt end-of-stream.',
+                'last byte; TLC (TraceFlush) requires everything owed, unmodified, then a prompt end-of-stream. Reaper part (SimNet, both '
+                'modes): a client that does not read lets a tunnel stream / close-delimited response pile up in the proxy, the upstream '
+                'goes, the clock passes --timeout and the inactivity reaper sweeps once or three times, then the client reads on: '
+                'TraceFlush requires everything that was queued, then end-of-stream.',
         'design_ref': 'DESIGN.md section 6, C07',
         'note': 'Trusted: TLC, SimNet socket semantics, reduction argument. Threaded mode and TLS clients are not exercised here.',
         'technique': 'TLA+ design model (ConnTick, safety + liveness) + TLC-generated schedules replayed into the real handler + '
